@@ -79,6 +79,16 @@ Proof.
   vm_compute. repeat split; reflexivity.
 Qed.
 
+(* the per-language composition read from AllFlattenData: left double quotation mark and "' s" *)
+Example C19_nonvacuous_languages :
+  let isspace := fun c => c =? 32 in
+  let run := fun lang cs => match flatten_for lang with Some d => Some (flatten_spec isspace 9 d cs) | None => None end in
+  run [99; 115] [8220] = Some [8220] /\ run [100; 101] [8220] = Some [34] /\ run [101; 115] [8220] = Some [34] /\
+  run [102; 114] [8220] = Some [171] /\ run [101; 110] [8220] = Some [34] /\
+  run [101; 110] [39; 32; 115] = Some [39; 115] /\ run [100; 101] [39; 32; 115] = Some [39; 32; 115] /\
+  run [102; 114] [96; 96; 8230] = Some [171; 46; 46; 46] /\ run [120; 120] [97] = None.
+Proof. vm_compute. repeat split; reflexivity. Qed.
+
 (* non-vacuity: three lines, only --flatten (the flag set for which every other line
    used to come out untransformed), English: all three lines are flattened *)
 Example C19_nonvacuous_pipeline :
